@@ -122,7 +122,7 @@ theorem minedStep_cases (c : Ctx) (addrs : List Addr) (acc acc' : Store × List 
         have hm := List.mem_of_find?_eq_some hrec
         have hp := List.find?_some hrec
         simp only [Bool.and_eq_true, decide_eq_true_eq] at hp
-        exact ⟨rec, tx, hm, hp.1, hp.2, htx, hrem, rfl⟩
+        exact ⟨rec, tx, hm, hp.1, hp.2, htx, (Bool.and_eq_true _ _ ▸ hrem).1, rfl⟩
       · cases h; exact Or.inl rfl
 
 /-- invariant of the removeMinedTxs fold: credits / unmined credits untouched, tx records only shrink -/
